@@ -114,8 +114,10 @@ def verify_function(world, qualname, timeout_ms=20000, max_paths=3000, only_path
                     if isinstance(sib, ast.FunctionDef) and sib is not node and sib is not chain[-2]:
                         sq = qualname.rsplit('.', 1)[0] + '.' + sib.name
                         cenv.vars.setdefault(sib.name, FuncV(sib, mi, cls, sq, cenv))
+            run.olds = {}
             for m in c.modifies:
                 values['old_' + m] = run.snapshot(values[m])
+                run.olds['old_' + m] = values['old_' + m]
             for lbl, fn in c.requires:
                 run.assume(run.tobool(run.eval_clause(c, fn, values)))
             if c.decreases is not None:
